@@ -567,9 +567,12 @@ impl<TokenIter: Iterator<Item = Result<Token>>> Parser<TokenIter> {
                                         .into()
                                 }
                                 keyword => {
-                                    if let Some(transformer) =
-                                        syntax_env.get(&first.expect_symbol()?)
-                                    {
+                                    // the transformer is copied out of the table, which must not
+                                    // stay borrowed: the expansion may itself be a define-syntax
+                                    let transformer = syntax_env
+                                        .get(&first.expect_symbol()?)
+                                        .map(|transformer| (*transformer).clone());
+                                    if let Some(transformer) = transformer {
                                         #[cfg(ruschm_verif)]
                                         if !crate::verif::step() {
                                             return error!(SyntaxError::Extension(
